@@ -73,37 +73,37 @@ Fixpoint elim (s : rdata) (wh : nat) (r d : N) (c : St) : rdata * St * bool :=
       end
   else match wh with O => (s, c, true) | S k => elim s k r d c end.
 
-(* XOR of the already reconstructed blocks selected by a pivot row *)
-Fixpoint frow (s : rdata) (r : N) (js : list nat) (c : St) (o : N) : St * option N :=
+(* XOR of the already reconstructed blocks selected by a pivot row; [us] = unknowns s (reduced_to_full = nth _ us) *)
+Fixpoint frow (us : list nat) (r : N) (js : list nat) (c : St) (o : N) : St * option N :=
   match js with
   | [] => (c, Some o)
   | j :: tl =>
       if bit r j then
-        match m_dget I c (unk s j) with
-        | (c1, Some v) => frow s r tl c1 (N.lxor o v)
+        match m_dget I c (nth j us 0%nat) with
+        | (c1, Some v) => frow us r tl c1 (N.lxor o v)
         | (c1, None) => (c1, None)
         end
-      else frow s r tl c o
+      else frow us r tl c o
   end.
 
-Definition finish_row (s : rdata) (i : nat) (c : St) : St * bool :=
+Definition finish_row (us : list nat) (i : nat) (c : St) : St * bool :=
   match m_pget I c i with
   | (c1, None) => (c1, false)
   | (c1, Some p) =>
       match m_mget I c1 i with
       | (c2, None) => (c2, false)
       | (c2, Some r) =>
-          match frow s r (seq 0 i) c2 p with
+          match frow us r (seq 0 i) c2 p with
           | (c3, None) => (c3, false)
-          | (c3, Some out) => m_dput I c3 (unk s i) out
+          | (c3, Some out) => m_dput I c3 (nth i us 0%nat) out
           end
       end
   end.
 
-Fixpoint finish (s : rdata) (is : list nat) (c : St) : St * bool :=
+Fixpoint finish (us : list nat) (is : list nat) (c : St) : St * bool :=
   match is with
   | [] => (c, true)
-  | i :: tl => match finish_row s i c with (c1, true) => finish s tl c1 | (c1, false) => (c1, false) end
+  | i :: tl => match finish_row us i c with (c1, true) => finish us tl c1 | (c1, false) => (c1, false) end
   end.
 
 (* [cap] = MatrixStorage::num_rows(), [vbits] = BitArray::<V>::len() *)
@@ -130,7 +130,7 @@ Definition handle_block (P : nat -> N) (cap vbits : nat) (s : rdata) (c : St) (i
         | (s2, c2, false) => (s2, c2, StorageError)
         | (s2, c2, true) =>
             if is_complete s2 then
-              match finish s2 (seq 0 (l s2)) c2 with
+              match finish (unknowns s2) (seq 0 (l s2)) c2 with
               | (c3, true) => (s2, c3, Ok (Done (done_len s2)))
               | (c3, false) => (s2, c3, StorageError)
               end
